@@ -15,7 +15,11 @@ META = {
               "3 (thorough) per burst, delays and reordering of replies "
               "unlimited; optionally one stale ok-reply of an earlier burst "
               "in flight at the start; sequence counter starting at 0, "
-              "0xfffe or 0xffff (wrap); default timeout a symbolic real > 0, "
+              "0xfffe or 0xffff (wrap); one unit with rig's own sequence "
+              "generator reduced to a 2-bit space (seqs(mask=3)), a burst of "
+              "6 with window 3, concrete clock, every delivery order, no "
+              "delayed or duplicated reply, so that the counter wraps while commands are "
+              "outstanding; default timeout a symbolic real > 0, "
               "per-command extra timeout a symbolic real >= 0, every clock "
               "reading and every wait a symbolic real",
     "stubs": ["scp_connection.time / select / socket rebound to the symbolic "
@@ -36,7 +40,7 @@ META = {
 
 
 def h_burst(ctx, burst, window, n_tries, faults, kinds, stale, seq0,
-            via_send_scp=False, multi=False):
+            via_send_scp=False, multi=False, seq_mask=None, untimed=False):
     from models.net import World, Patch, RC_OK
     from rig.machine_control import scp_connection as sc
     from rig.machine_control.scp_connection import (
@@ -44,15 +48,31 @@ def h_burst(ctx, burst, window, n_tries, faults, kinds, stale, seq0,
         FatalReturnCodeError)
     import struct
 
-    world = World(ctx, faults=faults, kinds=kinds, multi_recv=multi)
-    default_timeout = ctx.real("timeout")
-    ctx.assume(default_timeout > 0)
-    extras = [ctx.real("extra", 0) for _ in range(burst)]
+    if untimed:
+        # sequence-wrap units: the clock is concrete (timing is explored by
+        # the other units) and every delivery order is explored.  No reply
+        # is delayed past its timeout or duplicated here: in a 2-bit
+        # sequence space a late duplicate would meet a *legitimately* re-used
+        # number inside the burst, which is the hazard the code acknowledges
+        # for 2**16 commands (DESIGN D10, outside the claim).
+        world = World(ctx, faults=faults, kinds=kinds, multi_recv=multi,
+                      timed=False, delays=0)
+        default_timeout = 1
+        extras = [0 for _ in range(burst)]
+    else:
+        world = World(ctx, faults=faults, kinds=kinds, multi_recv=multi)
+        default_timeout = ctx.real("timeout")
+        ctx.assume(default_timeout > 0)
+        extras = [ctx.real("extra", 0) for _ in range(burst)]
     calls = []          # (command index, reply bytes)
 
     with Patch(world):
         conn = SCPConnection("host", n_tries=n_tries,
                              timeout=default_timeout)
+        if seq_mask is not None:
+            # rig's own sequence generator with a smaller sequence space, so
+            # that the counter wraps inside one burst
+            conn.seq = sc.seqs(seq_mask)
         for _ in range(seq0):
             next(conn.seq)
         if stale:
@@ -97,8 +117,26 @@ def h_burst(ctx, burst, window, n_tries, faults, kinds, stale, seq0,
         sends.setdefault(i, []).append(t)
         ctx.prove(seq_of.setdefault(i, seq) == seq,
                   "burst-retransmission-changed-seq")
-    ctx.prove(len(set(seq_of.values())) == len(seq_of),
-              "burst-sequence-number-shared", sorted(seq_of.items()))
+    if seq_mask is None:
+        ctx.prove(len(set(seq_of.values())) == len(seq_of),
+                  "burst-sequence-number-shared", sorted(seq_of.items()))
+    else:
+        # with a wrapping counter a number may be re-used, but never while
+        # the command holding it is still unanswered
+        holder = {}
+        done_at = {}
+        for k, rep_ in enumerate(world.received):
+            if rep_.kind == "ok":
+                done_at.setdefault(cmd_of(world.sent[rep_.req][1]), k)
+        for k, (seq, data, t, executed) in enumerate(world.sent):
+            i = cmd_of(data)
+            j = holder.get(seq)
+            if j is not None and j != i:
+                mark = world.send_marks[k]
+                ctx.prove(j in done_at and done_at[j] < mark,
+                          "burst-sequence-number-reused-while-outstanding",
+                          (seq, j, i))
+            holder[seq] = i
     timeouts = [default_timeout + e for e in extras]
     for i, ts in sends.items():
         ctx.prove(len(ts) <= n_tries, "burst-too-many-tries", (i, len(ts)))
@@ -187,13 +225,15 @@ def units(tier, seed):
     ALL = ("lose_req", "lose_rep", "dup", "retry", "fatal")
 
     def add(b, w, n, f, kinds, stale=False, seq0=0, split=0, wit=("ok",),
-            via=False, multi=False):
-        name = "burst=%d window=%d tries=%d faults=%d kinds=%s%s%s seq0=%#x%s" % (
+            via=False, multi=False, seq_mask=None, untimed=False):
+        name = "burst=%d window=%d tries=%d faults=%d kinds=%s%s%s seq0=%#x%s%s" % (
             b, w, n, f, "+".join(kinds), " stale" if stale else "",
-            " multi" if multi else "", seq0, " send_scp" if via else "")
+            " multi" if multi else "", seq0, " send_scp" if via else "",
+            " seqmask=%#x untimed" % seq_mask if seq_mask is not None else "")
         us.append(Unit(name, h_burst, dict(
             burst=b, window=w, n_tries=n, faults=f, kinds=kinds, stale=stale,
-            seq0=seq0, via_send_scp=via, multi=multi), split=split,
+            seq0=seq0, via_send_scp=via, multi=multi, seq_mask=seq_mask,
+            untimed=untimed), split=split,
             witnesses=wit, path_timeout_s=40))
     OTF = ("ok", "timeout", "fatal")
     add(1, 1, 1, 1, ALL, wit=OTF, multi=True)
@@ -204,7 +244,12 @@ def units(tier, seed):
     add(2, 2, 2, 0, (), seq0=0xffff, split=6, wit=("ok", "timeout"))
     add(2, 2, 1, 2, LOSS, split=6, wit=("ok", "timeout"))
     add(2, 2, 1, 1, ("fatal", "retry", "dup"), split=6, wit=OTF)
+    # the sequence counter wraps inside the burst (2-bit sequence space
+    # through rig's own seqs(mask)): numbers still outstanding are skipped
+    add(6, 3, 2, 0, (), split=6, wit=("ok",), seq_mask=3, untimed=True)
     if tier == "thorough":
+        add(8, 3, 2, 0, (), split=8, wit=("ok",), seq_mask=3, untimed=True)
+        add(7, 4, 2, 0, (), split=8, wit=("ok",), seq_mask=7, untimed=True)
         add(2, 1, 2, 1, ("lose_rep", "dup"), split=7, wit=("ok", "timeout"))
         add(2, 2, 2, 1, ("lose_req",), seq0=0xffff, split=8,
             wit=("ok", "timeout"))
